@@ -455,7 +455,7 @@ main(void)
                 strset_push(&S, s, n); free(s);
             }
             if (bad) vp_reply(id, "err BadHex");
-            else run_routes(id, p, atoi(r.tok[4]), &S, 1, 1, 0, 1);
+            else run_routes(id, p, atoi(r.tok[4]), &S, 1, 1, 0, 0);
             strset_free(&S); free(p);
         } else if (!strcmp(op, "rawgrid") && r.ntok == 7) {
             size_t alen; char *p = vp_unhex(r.tok[3], NULL), *a = vp_unhex(r.tok[5], &alen);
